@@ -1,4 +1,5 @@
 """C10 — a SNAP token is accepted exactly when authentic, for SNAP, and within lifetime."""
+import re
 import templates as T
 from facts import tokens, fmt, short, walk
 
@@ -250,7 +251,28 @@ def run(F, R, tier, cfg):
             ds = [n for n in walk(o) if n[0] == "call" and n[1].endswith("SystemTime::duration_since")]
             if ds:
                 ok = ok and any(t.endswith("::exp_time") for t in tokens(ds[0][2][0])) and any(t.endswith("SystemTime::now") for t in tokens(ds[0][2][1]))
-            R.ob("FLOW-lifetime", "lifetime = exp_time(claims).duration_since(now)? : %s" % fmt(o, 200), ok, True)
+            # spine: from the register argument down to duration_since only value-preserving steps (`?`, map_err, projections);
+            # or_else / unwrap_or / map / and_then can substitute or alter the duration
+            x, spine_ok, spine = o, False, []
+            for _ in range(12):
+                if x[0] in ("field", "downcast", "deref"):
+                    x = x[1]
+                elif x[0] == "ref":
+                    x = x[2]
+                elif x[0] == "call":
+                    spine.append(short(x[1]))
+                    if x[1].endswith("SystemTime::duration_since"):
+                        spine_ok = True
+                        break
+                    if re.search(r"::(branch|map_err)$", x[1]) and x[2]:
+                        x = x[2][0]
+                    else:
+                        break
+                else:
+                    break
+            ok = ok and spine_ok
+            R.ob("FLOW-lifetime", "lifetime = exp_time(claims).duration_since(now)? : %s" % fmt(o, 200), ok, True,
+                 {"rule": "FLOW-lifetime", "fn": p, "spine": spine, "holds": ok})
             if not ok:
                 R.violation("FLOW-lifetime", p + "/lifetime", "the registration lifetime is not (only) the token's remaining lifetime: %s" % fmt(o, 240), c.span.loc)
 
